@@ -241,7 +241,22 @@ def run_pair(engine, ops_text, with_model=True):
         return None, None, {"harness_error": ierr[-800:]}
     mout = None
     if with_model:
-        rc2, mo, me = run([DRV], inp=ops_text)
+        # Engines whose scripts refer to run-time observations (`#k`-th request seen, random ids)
+        # print one `!OP <resolved op>` line per op; the model then consumes the resolved script.
+        resolved = [l[4:] for l in iout.splitlines() if l.startswith("!OP ")]
+        model_in = ops_text
+        if resolved:
+            it = iter(resolved)
+            lines = []
+            for l in ops_text.splitlines():
+                if not l.strip():
+                    continue
+                if l.startswith("#"):
+                    lines.append(l)
+                else:
+                    lines.append(next(it, "bad-op-unresolved"))
+            model_in = "\n".join(lines) + "\n"
+        rc2, mo, me = run([DRV], inp=model_in)
         if rc2 == 0:
             mout = mo.splitlines()
         else:
@@ -262,6 +277,8 @@ def compare(engine, ops_text, prop, with_model=True):
     for l in impl:
         if l.startswith("!MON"):
             pending_mon.append(l)
+        elif l.startswith("!"):
+            continue  # !OP (resolved op for the model), !INFO (uncompared observations)
         else:
             replies.append((l, pending_mon))
             pending_mon = []
@@ -544,6 +561,32 @@ def check(prop, tier, seed, replay=None):
                     impl_fail.append((e["name"], ops, mcase, mline))
                 for ops, d in agg["disagree"]:
                     corr_broken.append((e["name"], ops, d))
+    # 5b. confirm every failing case by re-running it in isolation (real-time engines can be
+    # disturbed by scheduling hiccups; a failure that does not reproduce is recorded, not reported)
+    flaky = 0
+    if not replay:
+        confirmed, seen_cases = [], {}
+        for eng, ops, mcase, mline in impl_fail:
+            key = (eng, mcase)
+            if key not in seen_cases:
+                seen_cases[key] = still_fails(eng, case_text(ops, mcase), prop, "monitor") if mcase.startswith("#case") else True
+            if seen_cases[key]:
+                confirmed.append((eng, ops, mcase, mline))
+            else:
+                flaky += 1
+        impl_fail = confirmed
+        confirmed = []
+        for eng, ops, d in corr_broken:
+            key = (eng, d[0], "d")
+            if key not in seen_cases:
+                seen_cases[key] = still_fails(eng, case_text(ops, d[0]), prop, "disagree") if d[0].startswith("#case") else True
+            if seen_cases[key]:
+                confirmed.append((eng, ops, d))
+            else:
+                flaky += 1
+        corr_broken = confirmed
+        if flaky:
+            verdict["notes"].append("%d failing case(s) did not reproduce when re-run in isolation (timing); not reported" % flaky)
     # 6. verdict
     kf = known_findings(prop)
     out_lines = []
